@@ -220,6 +220,18 @@ def collect(
         assert issubclass(target, Target)
         target = target()
 
+    if keep_col_refs:
+        hidden_group_cols = [
+            table._cache.cols[uid].name for uid in table._cache.partition_by if uid not in table._cache.uuid_to_name
+        ]
+        if hidden_group_cols:
+            raise ValueError(
+                f"cannot collect table `{table._ast.short_name()}` with `keep_col_refs=True`: the grouping column(s) "
+                f"{', '.join(f'`{name}`' for name in hidden_group_cols)} have been deselected or overwritten and "
+                "are not part of the collected data frame\n"
+                "hint: `ungroup` the table before `collect` or keep the grouping columns selected."
+            )
+
     df = table >> export(Polars(lazy=False))
 
     if not keep_col_refs:
